@@ -3,6 +3,7 @@ package props
 import (
 	"encoding/json"
 	"fmt"
+	"os/exec"
 	"sort"
 	"strings"
 	"testing"
@@ -11,6 +12,7 @@ import (
 	"pgregory.net/rapid"
 
 	"verif/harness/internal/ev"
+	"verif/harness/internal/kchild"
 	"verif/harness/internal/oracle"
 	"verif/harness/internal/spec"
 )
@@ -378,7 +380,28 @@ func checkC12Processes(raw json.RawMessage) (ev.Result, error) {
 			return ev.Result{}, fmt.Errorf("process %d of %d sees different lookup results than process 1 (digest over every name->number, number->name and alias lookup): some lookup depends on map iteration order", i+1, c.Processes)
 		}
 	}
-	return ev.Result{Classes: []string{"lookups-across-processes"}, NonTrivial: true, Sub: c.Processes}, nil
+	// and by another build of the library: the aliases and tables do not depend on the build target either
+	res := ev.Result{Classes: []string{"lookups-across-processes"}, NonTrivial: true, Sub: c.Processes}
+	if bin, err := kchild.Bin("digest_386"); err == nil {
+		out, err := exec.Command(bin).Output()
+		if err != nil {
+			return res, ev.Inconclusivef("digest_386: %v", err)
+		}
+		got := ""
+		for _, f := range strings.Fields(string(out)) {
+			if strings.HasPrefix(f, "lookups=") {
+				got = strings.TrimPrefix(f, "lookups=")
+			}
+		}
+		// the lookup of the empty name is the build's own architecture and differs by construction: the helper prints
+		// it separately
+		if got != first {
+			return res, fmt.Errorf("a linux/386 build of the library answers the architecture lookups (every alias in several letter cases, every table) differently from the linux/amd64 build: digests %s vs %s", got, first)
+		}
+		res.Classes = append(res.Classes, "lookups-by-a-386-build")
+		res.Sub++
+	}
+	return res, nil
 }
 
 func TestC12Processes(t *testing.T) {
